@@ -539,7 +539,17 @@ impl Clone for %s {
         txt = self.r18_ghost_literals(txt)
         txt = self.r19_zip_from(txt)
         txt = self.r20_read_exact(txt)
+        txt = self.r22_range_bounds(txt)
         return txt
+
+    def r22_range_bounds(self, txt):
+        # R22: `X.start_bound()` / `X.end_bound()` on a generic `impl RangeBounds<usize>` -> `vshim::start_bound(&X)` / `vshim::end_bound(&X)`:
+        # vstd specifies the concrete impls (Range, RangeTo, ...) but a call through the trait bound gets no contract; the shim calls the
+        # same trait method and is assumed to return the vstd spec value `X.spec_start_bound()` / `X.spec_end_bound()`
+        def rep(m):
+            self.rules.hit('R22')
+            return 'crate::vshim::%s_bound(&%s)' % (m.group(2), m.group(1))
+        return re.sub(r'\b([a-z_][a-z0-9_]*)\.(start|end)_bound\(\)', rep, txt)
 
     def r20_read_exact(self, txt):
         # R20: `FILE.read_exact(&mut *BLOCK)` -> `vshim::read_exact_block(&mut FILE, &mut BLOCK)`: `Read::read_exact` is a provided
